@@ -81,7 +81,7 @@ def gen_call(tape, pool_size, term_of, ctx_symbols, richgen, ctx, exclude=()):
         # a number given in a Python type the constructor does not accept (or does it?): the answer
         # must not depend on whether an equal constant happens to exist already
         spec["ctor"] = tape.choice(["Int", "Int", "Real", "BV"], "oddc.ctor")
-        spec["value"] = tape.choice(["True", "False", "1.0", "2.0", "Fraction(2)", "0.0"], "oddc.value")
+        spec["value"] = tape.choice(["True", "False", "1.0", "2.0", "Fraction(2)", "0.0", "(1.0, 2.0)", "(1, 2)", "1", "2"], "oddc.value")
     if k == "serialize_custom":
         spec["printer"] = tape.choice(["custom", "default", "custom"], "hr.printer")
         spec["threshold"] = tape.choice([None, None, 2, 5], "hr.threshold")
@@ -203,11 +203,16 @@ def perform(env, spec, f, term, user_symbols):
         return factory_call(env, spec)
     if k == "odd_constant":
         from fractions import Fraction
-        v = {"True": True, "False": False, "1.0": 1.0, "2.0": 2.0, "Fraction(2)": Fraction(2), "0.0": 0.0}[spec["value"]]
-        if spec["ctor"] == "Real" and not isinstance(v, bool):
+        v = {"True": True, "False": False, "1.0": 1.0, "2.0": 2.0, "Fraction(2)": Fraction(2), "0.0": 0.0,
+             "(1.0, 2.0)": (1.0, 2.0), "(1, 2)": (1, 2), "1": 1, "2": 2}[spec["value"]]
+        # (the plain spellings "1", "2", "(1, 2)" are part of the catalogue too: whether an equal
+        # constant exists already is history, and must not decide whether an odd spelling is accepted)
+        if isinstance(v, tuple):
+            c = mgr.Real(v)
+            return ["constant", str(c.get_type()), str(c.constant_value()), type(c.constant_value()).__name__]
+        if spec["ctor"] == "Real" and not isinstance(v, (bool, int)):
             v = bool(v)         # floats and Fractions are documented spellings of a Real
         if spec["ctor"] == "BV":
-            mgr.BV(int(v), 4)   # (the plain spelling may exist already: that must not matter)
             c = mgr.BV(v, 4)
         else:
             c = getattr(mgr, spec["ctor"])(v)
